@@ -165,6 +165,42 @@ class Monitor1Short(Base):
 
 
 @register
+class Resp(Base):
+    """One message of every command kind whose response a plan may use, with delayed statuses and a sleep."""
+
+    id = "resp"
+
+    def devices(self, ctx):
+        m = FakeMotor(ctx, "m", is_async=self.a, move=("delay", 0.5))
+        return {"m": m, "det": FakeDet(ctx, "det", is_async=self.a, motors=[m], trigger=("delay", 0.25))}
+
+    def plan(self, d):
+        from bluesky.utils import Msg
+
+        def plan():
+            yield Msg("stage", d["det"])
+            tok = yield Msg("subscribe", None, lambda n, doc: None, "event")
+            uid = yield Msg("open_run")
+            yield Msg("checkpoint")
+            yield Msg("set", d["m"], 1.0, group="g")
+            yield Msg("wait", None, group="g")
+            yield Msg("trigger", d["det"], group="t")
+            yield Msg("wait", None, group="t")
+            yield Msg("create", None, name="primary")
+            yield Msg("read", d["det"])
+            yield Msg("read", d["m"])
+            yield Msg("save")
+            yield Msg("sleep", None, 0.25)
+            yield Msg("null")
+            yield Msg("close_run")
+            yield Msg("unsubscribe", None, tok)
+            yield Msg("unstage", d["det"])
+            return uid
+
+        return plan()
+
+
+@register
 class FlyOnly(Base):
     """bp.fly: kickoff / complete / collect without step readings."""
 
